@@ -255,7 +255,17 @@ SEC_OPTIONAL = {
     "virtual_sitesn": "[ virtual_sitesn ]\n6 1 1 2 3 4\n",
     "posres-ifdef": "[ position_restraints ]\n#ifdef POSRES\n1 1 1000 1000 1000\n#endif\n",
     "angles-ifdef": "[ angles ]\n#ifdef STIFF\n1 2 4 1 90 500\n#endif\n",
+    # restraint and rarely used sections of the dialect (the reader lists them all as sub-sections of a molecule type)
+    "dihedral_restraints": "[ dihedral_restraints ]\n1 2 3 4 1 120 10 500\n",
+    "distance_restraints": "[ distance_restraints ]\n1 4 1 0 1 0.3 0.4 0.5 1.0\n",
+    "angle_restraints": "[ angle_restraints ]\n1 2 3 4 1 90 100 1\n",
+    "angle_restraints_z": "[ angle_restraints_z ]\n1 2 1 90 100 1\n",
+    "orientation_restraints": "[ orientation_restraints ]\n1 2 1 1 1 3 6.0 1.0 1.0\n",
+    "pairs_nb": "[ pairs_nb ]\n1 4 1 0.0 0.0 0.3 0.5\n",
+    "virtual_sites4": "[ virtual_sites4 ]\n6 1 2 3 4 2 0.1 0.2 0.3\n",
+    "settles": "[ settles ]\n1 1 0.1 0.16\n",
 }
+SAME_SITE = {"virtual_sites3", "virtual_sitesn", "virtual_sites4"}
 
 
 def check_sections(case):
@@ -266,11 +276,12 @@ def check_sections(case):
     names = sorted(SEC_OPTIONAL)
     combos = [()] + [(a,) for a in names] + list(itertools.combinations(names, 2)) + [tuple(names)]
     for combo in combos:
-        if "virtual_sites3" in combo and "virtual_sitesn" in combo and len(combo) == 2:
+        if len(SAME_SITE & set(combo)) == 2 and len(combo) == 2:
             continue        # both construct the same site
         if case.get("one") and list(combo) != case["one"]:
             continue
-        use = [c for c in combo if not (c == "virtual_sitesn" and "virtual_sites3" in combo)]
+        keep_site = sorted(SAME_SITE & set(combo))[:1]
+        use = [c for c in combo if c not in SAME_SITE or c in keep_site]
         itp = SEC_HEAD + "".join(SEC_OPTIONAL[c] for c in use)
         for n in (1, 2, 3):
             rg = dict(n=n, edges=[[i, i + 1] for i in range(n - 1)], resids=[1 + i for i in range(n)], resnames=["R"] * n)
